@@ -220,6 +220,9 @@ pub fn expected_msgs(scen: &Scenario, inst: u32) -> Vec<MsgRef> {
         }
         Inst::Repair { target, helpers } => {
             m(Kind::RepairInit, hub, *target);
+            if *target >= n {
+                m(Kind::PubKeys, *target, hub);
+            }
             for h in helpers {
                 m(Kind::RepairReq, hub, *h);
                 for h2 in helpers {
